@@ -334,9 +334,28 @@ func qty(o map[string]any, k string) uint64 {
 	if !ok {
 		bad("%s: not a string", k)
 	}
-	n, ok := simnode.ParseQty(s)
-	if !ok && s != "0x" {
+	// eth.decode: every character a hex digit; an error as soon as the value no longer fits 64 bits (leading
+	// zeros are fine, any number of them)
+	if !strings.HasPrefix(s, "0x") {
 		bad("%s: bad quantity %q", k, s)
+	}
+	var n uint64
+	for _, c := range s[2:] {
+		var d uint64
+		switch {
+		case c >= '0' && c <= '9':
+			d = uint64(c - '0')
+		case c >= 'a' && c <= 'f':
+			d = uint64(c-'a') + 10
+		case c >= 'A' && c <= 'F':
+			d = uint64(c-'A') + 10
+		default:
+			bad("%s: bad quantity %q", k, s)
+		}
+		if n>>60 != 0 {
+			bad("%s: quantity %q above 64 bits", k, s)
+		}
+		n = n<<4 | d
 	}
 	return n
 }
